@@ -1,7 +1,7 @@
 """C16 — 3DS arc extraction: record roles, table location, header padding rule, error mapping."""
 from mir import fmt, walk, strip_refs, norm, callee_names
 from binser import for_loops, enclosing_loops, rpo_index
-from flow import enum_paths, PathLimit, cond_truth
+from flow import enum_paths, PathLimit, cond_truth, dom_guards
 
 EXPLANATION = ("arc::from_bytes has no writer to cross-check; the reference is the record description in the property: "
                "inside the entry loop the stream events are [string, u32, u32, u32]; the body read is positioned from "
@@ -176,9 +176,51 @@ def run(facts, rep, ctx):
                 got[labels.get(x[3])] = ev
             if x[0] == "call" and x[1].endswith("read_string"):
                 got["name"] = ev
+    # the same mapping read off the paths (whatever spells it: ok_or, match, let-else, a helper expanded in place):
+    # on a path that returns an error right after finding `None` for X, which error is it?
+    unknown4 = set()
+    if any(got.get(k) is None for k in ("Count", "Info", "name")):
+        try:
+            vb = facts.ibody(b.name, combinators=True)
+            vpaths = enum_paths(vb, max_paths=6000)
+        except PathLimit:
+            vpaths = []
+            unknown4.add("too many paths")
+        from c04 import is_err_term as _is_err
+        for p in vpaths:
+            if p.end != "ret" or _is_err(p.ret) is not True:
+                continue
+            last = None
+            for (bb_, term, vals, neg, dty) in p.conds:
+                if term[0] != "discr":
+                    continue
+                x = strip_refs(term[1])
+                while x[0] in ("ref", "deref", "field", "downcast") or (x[0] == "call" and x[1].endswith("Try>::branch")):
+                    x = strip_refs(x[2][0] if x[0] == "call" else x[1])
+                what = None
+                if x[0] == "call" and x[1].endswith("find_label_address") and len(x[2]) > 1:
+                    a_ = strip_refs(x[2][1])
+                    what = a_[1] if a_[0] == "const" else None
+                elif x[0] == "call" and x[1].endswith("read_string"):
+                    what = "name"
+                if what is None:
+                    continue
+                is_opt = "Option" in str(term[2]) if len(term) > 2 else False
+                none_taken = is_opt and ((vals == (0,) and not neg) or (neg and 0 not in vals))
+                last = (what, none_taken)
+            if last and last[1] and got.get(last[0]) is None:
+                ev = None
+                for y in walk(p.ret):
+                    if y[0] == "agg" and y[1] == "adt" and str(y[2]).endswith("ArcError"):
+                        ev = y[3]
+                        break
+                if ev is not None:
+                    got[last[0]] = ev
     for k, v in (("Count", "NoCount"), ("Info", "NoInfo"), ("name", "MissingName")):
         if got.get(k) == v:
             rep.ok(R4, {"missing": k, "error": v})
+        elif got.get(k) is None:
+            rep.inconc(R4, "how a missing %s is reported was not recognised (specified %s)" % (k, v))
         else:
             rep.violation(R4, b.name, "error:" + k, "a missing %s is reported as %s (specified %s)" % (k, got.get(k), v), where)
     # ---- R16.5 empty bodies ----------------------------------------------------------------------------
@@ -194,8 +236,26 @@ def run(facts, rep, ctx):
             nm2 = callee_names(t2)[1] or ""
             if nm2.startswith("mila::") and rb.local_ty(t2["dest"]["l"]).startswith("std::result::Result<") and not _el(lps, bb2):
                 outside.append((bb2, t2, nm2))
-        if not outside:
+        # first ask the reader itself: read_bytes(0) with the cursor at the very end of the data
+        verdict = None
+        try:
+            from summ import Evaluator as _Ev, Ref as _Ref, Unknown as _Unk, Panic as _Pan
+            from c04 import final_outcomes as _fo
+            _outs = _fo(_Ev(facts), facts, rb, [_Ref({"position": 8, "archive": _Ref({"data": {"len": 8}})}), 0])
+            if _outs and any(o["err"] is False and o["definite"] and not o["panic"] for o in _outs):
+                verdict = "ok"
+            elif _outs and all((o["err"] is True or o["panic"]) and o["definite"] for o in _outs):
+                verdict = "bad"
+        except Exception:
+            verdict = None
+        if verdict == "ok":
+            rep.ok(R5, {"fn": rb.name, "read_bytes(0) at position == size": "Ok on a fully evaluated path"})
+        elif verdict == "bad":
+            rep.violation(R5, rb.name, "empty-at-end", "BinArchiveReader::read_bytes(0) with the cursor at the end of the data is rejected on every path: an empty file recorded at the end of the data region fails to extract", "%s:%s" % (rb.file, rb.line))
+        elif not outside:
             rep.ok(R5, {"fn": rb.name, "fallible_reads": "only inside the per-byte loop: count 0 reads nothing"})
+        elif any(dom_guards(rb, bb2) for bb2, t2, nm2 in outside):
+            rep.inconc(R5, "BinArchiveReader::read_bytes: the positional read is conditional; whether a zero-length request at the end is accepted was not decided")
         else:
             # a fallible positional read that runs even for count == 0: it must accept the empty range at the end
             from summ import Evaluator, Ref, Unknown, Panic
